@@ -25,4 +25,5 @@ props! {
     c16: C16: "C16",
     c17: C17: "C17",
     c19: C19: "C19",
+    c20: C20: "C20",
 }
